@@ -106,6 +106,33 @@ def check_case(case):
 
     lastwrite = {}
 
+    def check_step(res, keys, idx, opno, op):
+        """a session step result of scenarios that have not received per-step settings equals the reference at that grid index"""
+        if not isinstance(res, dict) or "msg" in res or idx >= len(grid):
+            return True
+        for key in keys:
+            if key not in shadow or shadow[key]["dirty"]:
+                continue
+            m_, s_ = key
+            try:
+                ref = ref_for(key)
+            except E.Fragile:
+                continue
+            cell = res.get(m_, {}).get(s_)
+            if cell is None:
+                continue
+            scale = SM.model_scale(ref)
+            for nm in names:
+                if nm not in cell:
+                    continue
+                (t_, v_), = cell[nm].items()
+                if float(t_) != grid[idx] or not SM.values_agree(float(v_), ref[nm][idx], scale, abstract["n"]):
+                    vs.append(Violation("session-step:%s" % ("after-" + lastwrite.get(key, "no-write")),
+                                        "op #%d %r: session step %d of scenario %s/%s reports %s(%r)=%r, a fresh model with its settings %r gives %s(%r)=%r"
+                                        % (opno, op, idx, m_, s_, nm, t_, v_, shadow[key], nm, grid[idx], ref[nm][idx])))
+                    return False
+        return True
+
     def read_scenario(key, opno, op):
         m, s = key
         if shadow[key]["dirty"]:
@@ -163,18 +190,24 @@ def check_case(case):
                             shadow[k_]["points"].update(st0.get("points", {}))
                             writes.append(k_)
                             lastwrite[k_] = "begin-session-settings(multi-manager)"
-                    for st_ in steps:
+                    ok_ = True
+                    for si, st_ in enumerate(steps):
                         if st_:
-                            b.run_step(settings=json.loads(json.dumps(st_)))
                             for m_, d_ in st_.items():
                                 for s_ in d_:
                                     if (m_, s_) in shadow:
                                         shadow[(m_, s_)]["dirty"] = True
                                         writes.append((m_, s_))
                                         lastwrite[(m_, s_)] = "step-settings(multi-manager)"
+                            res_ = b.run_step(settings=json.loads(json.dumps(st_)))
                         else:
-                            b.run_step()
+                            res_ = b.run_step()
+                        if not check_step(res_, keys, si, opno, op):
+                            ok_ = False
+                            break
                     b.end_session()
+                    if not ok_:
+                        break
                     continue
                 key = (op[1], op[2])
                 if key not in shadow:
@@ -216,15 +249,21 @@ def check_case(case):
                     if settings:
                         writes.append(key)
                         lastwrite[key] = "begin-session-settings"
-                    for st_ in steps:
+                    ok_ = True
+                    for si, st_ in enumerate(steps):
                         if st_:
-                            b.run_step(settings={m: {s: json.loads(json.dumps(st_))}})
                             shadow[key]["dirty"] = True
                             writes.append(key)
                             lastwrite[key] = "step-settings-" + "+".join(sorted(st_.keys()))
+                            res_ = b.run_step(settings={m: {s: json.loads(json.dumps(st_))}})
                         else:
-                            b.run_step()
+                            res_ = b.run_step()
+                        if not check_step(res_, [key], si, opno, op):
+                            ok_ = False
+                            break
                     b.end_session()
+                    if not ok_:
+                        break
             except Exception as e:
                 vs.append(Violation("crash:%s:%s" % (kind, type(e).__name__), "op #%d %r raised %r" % (opno, op, e)))
                 break
